@@ -151,6 +151,7 @@ static void depth_case(const Shape& sh, int L, int d, int src) {
     if (d <= L) { if (!r.ok) out().viol(sig, what + "rejected although within the limit: " + r.err); else ++g_nontrivial; }
     else { if (r.ok) out().viol(sig, what + "accepted although deeper than the limit"); else if (!r.depth_err) out().viol(sig, what + "rejected with '" + r.err + "' instead of max_nesting_depth_exceeded"); }
     out().cls(std::string("dec:") + (r.ok ? "ok" : (r.depth_err ? "depth" : "other")));
+    if ((g_eval % 97) == 1) out().sample(what + (r.ok ? "accepted" : "rejected: " + r.err));
 }
 static void enc_case(const std::string& fmt, int kind, int L, int d) {
     if (d < 1) return;
@@ -163,6 +164,7 @@ static void enc_case(const std::string& fmt, int kind, int L, int d) {
     if (d <= L) { if (!r.ok) out().viol(sig, what + "refused although within the limit: " + r.err); else ++g_nontrivial; }
     else { if (r.ok) out().viol(sig, what + "wrote a value deeper than the limit"); else if (!r.depth_err) out().viol(sig, what + "failed with '" + r.err + "' instead of max_nesting_depth_exceeded"); }
     out().cls(std::string("enc:") + (r.ok ? "ok" : (r.depth_err ? "depth" : "other")));
+    if ((g_eval % 97) == 1) out().sample(what + (r.ok ? "written" : "refused: " + r.err));
 }
 
 static std::vector<int> limits(bool thorough) {
@@ -328,6 +330,7 @@ static void mem_case(const Claim& c, uint64_t n, int trailing, int src) {
     else ++g_nontrivial;
     out().gauge("mem_peak_max", peak);
     out().cls(std::string("mem:") + (ok ? "accepted" : "rejected"));
+    if ((g_eval % 53) == 1) out().sample(c.fmt + " " + c.name + " claiming 0x" + nb + ", " + std::to_string(b.size()) + " bytes supplied -> peak heap " + std::to_string(peak) + " bytes (bound " + std::to_string(bound) + "), " + (ok ? "accepted" : err));
 }
 static void run_mem(bool thorough, int slice, int nslices) {
     auto cl = claims();
